@@ -82,6 +82,9 @@ IndexScoped   == {"index_create", "index_get", "index_delete", "index_config", "
                   "graph_read_gated", "session", "transfer", "ui_explore", "users", "artifacts",
                   "compile"}
 
+\* classes that neither show nor touch stored data: no namespace is needed for them
+NoDataClasses == {"compile_validate", "compile_info", "unrouted"}
+
 MinRole(c)  == IF c \in PublicClasses THEN "none"
                ELSE IF c \in AdminClasses THEN "admin"
                ELSE IF c \in WriteClasses THEN "write" ELSE "read"
@@ -159,6 +162,7 @@ RoleOK(c) == Global(c.tok) \/ Rank[c.tok.role] >= Rank[EffMin(c)]
 \* a transfer touches two distinct indexes, at most one of which can be the token's own
 NsOK(c)   == \/ Global(c.tok)
              \/ c.tok.ns = "all"
+             \/ c.shape.class \in NoDataClasses
              \/ c.shape.class \in IndexScoped /\ c.shape.class # "transfer" /\ c.target = "own"
 
 Allowed(c) == c.shape.class \in PublicClasses \/ (Authentic(c.tok) /\ RoleOK(c) /\ NsOK(c))
@@ -224,7 +228,8 @@ Inv_WriteNeverAdmin  == Served(req) /\ req.tok.kind = "jwt" /\ req.tok.role = "w
                             => req.shape.class \notin AdminClasses /\ ~Reserved(req)
 Inv_NsNeverOther     == Served(req) /\ req.tok.kind = "jwt" /\ req.tok.role # "admin" /\ req.tok.ns = "own"
                                /\ req.shape.class \notin PublicClasses
-                            => req.shape.class \in IndexScoped /\ req.target = "own" /\ req.shape.class # "transfer"
+                            => \/ req.shape.class \in NoDataClasses
+                               \/ req.shape.class \in IndexScoped /\ req.target = "own" /\ req.shape.class # "transfer"
 
 (***************************************************************************)
 (* Restart machine                                                         *)
